@@ -296,6 +296,30 @@ def run(ctx):
             ctx.corr_mismatch("c07 tree case file", e)
         for i in bad[:5]:
             ctx.corr_mismatch("tree_resolve model vs implementation", {"setlike": setlike, "states": tcases[i]})
+        # ---- leaf level: one of the three states is not a leaf state at all -> TypeError, in both implementations
+        nmal = 0
+        for key, env in envs.items():
+            good = env.leafstate(([(1, 1), (2, 2)], None))
+            k1 = good[0][0]
+            shapes = [("three-tuple", (1, 2, 3)), ("list-items", ([],)), ("int-items", (5,)),
+                      ("non-tuple", 5), ("non-tuple", "x"), ("empty-tuple", ()),
+                      ("odd-items", None if setlike else (tuple(good[0]) + (k1,),)),
+                      ("items-and-two-more", (good[0], 5, 6))]
+            for cls_, sh in shapes:
+                if sh is None:
+                    continue
+                for pos in range(3):
+                    st3 = [good, good, good]
+                    st3[pos] = sh
+                    r = env.canon(lambda: env.leafcls()._p_resolveConflict(*st3))
+                    nmal += 1
+                    ctx.count(("malformed-leaf", key, cls_, pos))
+                    if r[0] != "TypeError":
+                        ctx.oracle_failure("malformed-leaf-state:%s:%s:%s" % (key[1], cls_, r[0] if r[0] != "other" else r[1]),
+                                           "%s%s/%s _p_resolveConflict with the %s state malformed (%s: %r): %r instead of TypeError" % (
+                                               key[0], "Set" if setlike else "Bucket", key[1], ("original", "committed", "new")[pos], cls_, sh if cls_ != "odd-items" else "(k, v, k)", r[:2]),
+                                           {"family": key[0], "impl": key[1], "setlike": setlike, "class": cls_, "position": pos})
+        ctx.cov["malformed_leaf_state_calls"] = ctx.cov.get("malformed_leaf_state_calls", 0) + nmal
     ctx.cov["families"] = fams
 
 
